@@ -317,4 +317,38 @@ def run_task(task):
                       kf={"input_class": "regular", "kind": "passthrough"})
       acc.outcome("passthrough_ok")
       acc.sample({"shape": x.shape, "dtype": "float32/bfloat16"})
+    # pass-through storage dtypes with extract_diagonal on square matrices:
+    # zeros and the diagonal must still come back exactly
+    import jax
+    for n in (1, 2, 3, 5):
+      a = np.resize(vals[3::5], n * n).reshape(n, n).astype(np.float32)
+      a[0, -1] = 0.0
+      for dt, name in ((jnp.float32, "float32"), (jnp.bfloat16, "bfloat16")):
+        for mode in ("eager", "jit"):
+          f = lambda v, dt=dt: QuantizedValue.from_float_value(
+              v, dt, True).to_float()
+          got = np.asarray((jax.jit(f) if mode == "jit" else f)(
+              jnp.asarray(a)))
+          acc.transitions += 2
+          acc.states += 1
+          acc.nontrivial += 1
+          acc.evaluations += a.size
+          want_diag = np.diag(a) if name == "float32" else np.asarray(
+              jnp.asarray(np.diag(a)).astype(jnp.bfloat16).astype(
+                  jnp.float32))
+          ok = np.array_equal(np.diag(got), want_diag) and \
+              np.all(got[a == 0] == 0)
+          if name == "float32":
+            ok = ok and np.array_equal(got, a)
+          if not ok:
+            acc.outcome("viol_passthrough_diag")
+            acc.violation("C11|%s|%s|n%d|diag" % (name, mode, n),
+                          "%s storage with extract_diagonal: diagonal %s came "
+                          "back as %s" % (name, np.diag(a).tolist(),
+                                          np.diag(got).tolist()),
+                          {"dtype": name, "mode": mode, "n": n},
+                          kf={"input_class": "regular",
+                              "kind": "passthrough_diag"})
+          else:
+            acc.outcome("passthrough_diag_ok")
   return acc.result()
